@@ -15,7 +15,8 @@ def short(x, n=160):
 def run_convs(pid, convs, rep, keys=("wire", "cbs", "closed", "rets"), monitors=(S.cb_wf, S.wire_wf), par=24,
               extra_check=None, repeat=1):
     """convs: list of Conv. Returns coverage dict; registers violations on rep."""
-    exp = S.expected_for(convs)
+    multi = bool(convs) and isinstance(convs[0], S.Multi)
+    exp = S.expected_multi(convs) if multi else S.expected_for(convs)
     scs = [c.scenario() for c in convs]
     results, leak, crashes = S.run_sys(scs, par=par)
     diffs = []
@@ -23,8 +24,11 @@ def run_convs(pid, convs, rep, keys=("wire", "cbs", "closed", "rets"), monitors=
     for c, e, r in zip(convs, exp, results):
         if r.get("crash"):
             continue
-        o = S.observe(r)
-        o["rets"] = [(d, ("nil",) if ec == ("<nil>",) else ec) for d, ec in o["rets"]]
+        if multi:
+            o = S.observe_multi(r, len(c.segs))
+        else:
+            o = S.observe(r)
+            o["rets"] = [(d, ("nil",) if ec == ("<nil>",) else ec) for d, ec in o["rets"]]
         d = S.diff_proj(e, o, keys)
         if d:
             diffs.append((c, e, o, d, r))
@@ -42,10 +46,9 @@ def run_convs(pid, convs, rep, keys=("wire", "cbs", "closed", "rets"), monitors=
         if r.get("serve_err") not in ("ErrServerClosed", ""):
             monitor_hits.append((c, "Serve returned %s" % r.get("serve_err"), r))
     for sc, err in crashes:
-        conv = next(c for c in convs if c.sid == sc["id"])
         sig = {"kind": "crash", "panic": _panic_site(err)}
-        rep.violation(sig, {"what": "the process running corebgp crashed", "scenario": sc, "stderr": err[-1500:],
-                            "model_case": conv.model_case().line()[:2000]}, found_input=True)
+        rep.violation(sig, {"what": "the process running corebgp crashed", "scenario": sc, "stderr": err[-1500:]},
+                      found_input=True)
         rep.sys_found = True
     # monitor violations are property violations observed on the implementation
     by = collections.defaultdict(list)
@@ -71,7 +74,7 @@ def run_convs(pid, convs, rep, keys=("wire", "cbs", "closed", "rets"), monitors=
             jv = verdict(c, e, o, r)
             if jv:
                 found, why = True, jv
-        if rep.violation(sig, {"what": why, "scenario": c.scenario(), "model_case": c.model_case().line()[:3000],
+        if rep.violation(sig, {"what": why, "scenario": c.scenario(),
                                "expected": {k: short(e[k], 600) for k in d}, "observed": {k: short(o[k], 600) for k in d},
                                "occurrences": len(l),
                                "broken": "correspondence of coq/Model/Conn.v with fsm.go on this conversation"},
@@ -89,9 +92,9 @@ def run_convs(pid, convs, rep, keys=("wire", "cbs", "closed", "rets"), monitors=
         outcomes[str(last)] += 1
     samples = []
     for c, e, r in list(zip(convs, exp, results))[:3]:
-        o = S.observe(r) if not r.get("crash") else {}
+        o = {} if r.get("crash") else (S.observe_multi(r, len(c.segs)) if multi else S.observe(r))
         samples.append({"tag": c.tag, "steps": c.scenario()["steps"][:8], "expected_returns": short(e["rets"]),
-                        "observed_wire": short([(t, b.hex()[:24]) for t, b in o.get("wire", [])], 300),
+                        "observed_wire": short(o.get("wire", []), 300),
                         "observed_callbacks": short([x[0] for x in o.get("cbs", [])], 200)})
     return {
         "evaluations": len(convs), "distinct_nontrivial": len(set(json.dumps(s["steps"]) + json.dumps(s["handler"]) for s in scs)),
